@@ -209,7 +209,18 @@ def gen_random(rng, n_t, n_ops, span):
     return ops
 
 
+def corpus_cases():
+    """regression corpus (runs first): minimised failing inputs of past defects and seeded changes"""
+    import glob
+    out = []
+    for p in sorted(glob.glob(os.path.join(common.VERIF, "corpus", PROP, "*.ops"))):
+        ops = [l.strip() for l in open(p) if l.strip() and not l.startswith("#")]
+        out.append(("corpus-" + os.path.basename(p)[:-4], ops, "corpus-" + os.path.basename(p)[:-4]))
+    return out
+
+
 def gen_cases(tier, seed):
+    yield from corpus_cases()
     rng = random.Random(seed * 7919 + 5)
     yield ("sweep-128", gen_sweep(rng, 120, 135, 4), "boundary-128")
     for i in range(30 if tier == "quick" else 200):
